@@ -125,23 +125,27 @@ func C16(run *ev.Run, tier string) map[string]interface{} {
 					if pos.name == "DELETE" {
 						item[variant] = val.SS("e", "f")
 					}
-					var out itp.Outcome
-					if pos.grammar == "cond" {
-						out, _ = itp.Match(expr, item, nil, usedValues(expr))
-					} else {
-						out, _ = itp.Update(expr, item, nil, usedValues(expr))
-					}
-					count("reserved-word")
-					if out.O != "E" {
-						cs := "upper"
-						if variant != w {
-							cs = "other-case"
+					// the rule does not depend on the item: the same expression against the item that
+					// holds the attributes and against an item that holds none of them
+					for _, it := range []val.Item{item, {"unrelated": val.S("v")}} {
+						var out itp.Outcome
+						if pos.grammar == "cond" {
+							out, _ = itp.Match(expr, it, nil, usedValues(expr))
+						} else {
+							out, _ = itp.Update(expr, it, nil, usedValues(expr))
 						}
-						kw := ""
-						if keywordLike[w] {
-							kw = "|expression-keyword"
+						count("reserved-word")
+						if out.O != "E" {
+							cs := "upper"
+							if variant != w {
+								cs = "other-case"
+							}
+							kw := ""
+							if keywordLike[w] {
+								kw = "|expression-keyword"
+							}
+							run.Report(fmt.Sprintf("C16|reserved-word-accepted|%s|%s%s", pos.name, cs, kw), fmt.Sprintf("%q (reserved word %s as a bare name) on item %s evaluated to %s %s", expr, w, it.CanonText(), out.O, out.Msg), map[string]interface{}{"expression": expr, "word": w, "item": it})
 						}
-						run.Report(fmt.Sprintf("C16|reserved-word-accepted|%s|%s%s", pos.name, cs, kw), fmt.Sprintf("%q (reserved word %s as a bare name) evaluated to %s %s", expr, w, out.O, out.Msg), map[string]interface{}{"expression": expr, "word": w})
 					}
 				})
 			}
